@@ -1,5 +1,5 @@
 # replay of a bounded stand-in violation: re-run native/c01_backends.py
 import sys
-print('Catstate(0.6, -0.7, p=0.3); Rgate; BSgate on bosonic/complex: quadrature moments / photon numbers [-0.2365, -0.2737, -0.1518, 0.1337, 0.2333, 0.1954, 0.1169, 0.0829] differ from the fock simulator [-0.1094, -0.2619, -0.2588, 0.0, -0.1698, -0.2367, 0.1169, 0.0829]')
+print("S2gate(0.25, 0.5) | (q[2], q[0]) of 3 on fock: ('quad', 0, 0.0) = [0.0544, 0.6895], the documented action gives [0.3098, 0.8226]")
 print('REPLAY-VIOLATION')
 sys.exit(1)
